@@ -2,17 +2,72 @@
 """Regenerate MANIFEST.json from the table below (kept in one place so it is always schema-valid)."""
 import json, os
 VERIF = os.path.dirname(os.path.dirname(os.path.abspath(__file__)))
+TB = ("Trusted: Lean kernel + Mathlib (axioms propext, Classical.choice, Quot.sound only, audited each run); Prim/Real.lean primitive "
+      "semantics on regular inputs (singular inputs have no real meaning); translator (validated each run against an execution tracer on "
+      "all 2404 dispatch entries); hand-written Spec/ as a reading of the documentation; ")
+GL = ("Trusted: Lean kernel; the hand-written glue model (Glue/*.lean) as a reading of the source, reduced by the per-run correspondence "
+      "(exact symbolic on the object backend; structural/numeric on NumPy and Awkward); CPython/NumPy/Awkward themselves. ")
 CLAIMS = {
- "C12": dict(
-  category="proof",
-  text="Lean 4 theorems over the model regenerated from today's source: for ALL 4/36/144 coordinate-system key pairs and all reals, "
-       "!= <-> not ==, == reflexive/symmetric, same-system == and isclose characterised coordinate-wise, isclose reflexive, implied "
-       "by == and monotone in both tolerances. Operator/method/numpy-function routing on object, NumPy and Awkward backends is "
-       "checked differentially against the Lean model evaluated at IEEE double.",
-  note="Trusted: Lean kernel + Mathlib; Prim/Real.lean primitive semantics; translator (validated each run against an execution "
-       "tracer on all 2404 entries); NaN is outside the real model; NumPy/Awkward element-wise semantics sampled, not proved.",
-  technique="Lean 4 proof over translator-generated model + differential correspondence (Lean Float model vs real backends)",
-  design="4/C12"),
+ "C01": dict(category="proof", design="4/C01",
+  text="Refinement theorems in Lean 4 over the model regenerated from today's source: for every compute module and EVERY coordinate-system key "
+       "(2/6/12 unary, 4/36/144 binary, x12 Euler orders) the value computed by the variant found under that key denotes Spec.op of the operands' "
+       "denotations, for all reals in the representable domain (Canon). Cross-system equal/not_equal are covered structurally (C12 theorems). "
+       "Method-level pass-through rules by the glue model + exact symbolic correspondence. Known findings (t<0): to_beta3, Et.",
+  note=TB + "float64 rounding and singular strata (zero vector, on-axis theta/eta, t=0) are not modelled; every run also sweeps the laws on the real code at 50 digits (exploration).",
+  technique="Lean 4 refinement proofs over translator-generated model; translation validation; mp law sweep as failing-input search"),
+ "C02": dict(category="proof", design="4/C02",
+  text="The same refinement theorems read at the Cartesian key, plus the Euler/axis/quaternion rotation identities (Props/C10) and boost identities (Props/C09): "
+       "each operation equals its documented definition over the reals, for all operands in the domain of the definition. The float64 clause is NOT proved "
+       "(no formal float semantics); it is sampled by the C03 value lattice and the 50-digit law sweep.",
+  note=TB + "the float64 half of the property is exploration only.",
+  technique="Lean 4 proofs (Spec refinement) over translator-generated model; mp reference model as failing-input search"),
+ "C04": dict(category="proof", design="4/C04",
+  text="Theorems about the glue model for all scalar types and compute layers: projections keep the retained stored coordinates verbatim (prefix), embeddings keep all "
+       "stored coordinates and add exactly the keyword's value in the keyword's coordinate type or zero, to_<own system> is the identity (under the identity-accessor "
+       "laws, proved for the generated copy), the 40-entry to_* table with momentum spellings. Model tied to the code by exact symbolic correspondence on the whole "
+       "conversion lattice (20 sources x 40 targets x keywords x 2 flavors). Round trips over the reals: accessor refinements (C01).",
+  note=GL, technique="Lean 4 proofs about a hand-written executable model + exact symbolic correspondence with the object backend"),
+ "C05": dict(category="proof", design="4/C05",
+  text="Theorems: handler = first operand of maximal backend priority; result backend/flavor rule of dispatch; dimension rule of _wrap_result per declared result shape; "
+       "dimension guards of the nine same-dimension methods, cross, rotate_axis, boosts; operators = methods; TOTALITY of all 82 generated dispatch tables over their key "
+       "types (decide +kernel). Correspondence: complete object-backend lattice (exact, symbolic) and a cross-backend type lattice (object/NumPy/Awkward array/record, both "
+       "registration modes) against the model's prediction. Four known findings in the Awkward backend are listed, everything else must match.",
+  note=GL + "known-finding classes mask further changes of the same class (see DESIGN.md).",
+  technique="Lean 4 proofs (incl. decide over generated tables) + exhaustive/sampled correspondence of result types"),
+ "C09": dict(category="proof", design="4/C09",
+  text="64 Lean theorems on the generated boost functions for all reals with |beta|<1: Minkowski product preserved, inverse by the opposite boost, velocity addition along an axis, "
+       "boost_p4 = boost_beta3 o to_beta3, boostX/Y/Z(beta) = boost_beta3 along the axis = boostX/Y/Z(gamma) for the matching gamma, boostCM_of_p4(v,v) = (0,0,0,tau), tau preserved; "
+       "all coordinate systems via the C01 refinement of the boosts. boost()/boostCM_of() dispatch: glue model + symbolic correspondence.",
+  note=TB, technique="Lean 4 proofs (linear_combination certificates) over translator-generated model"),
+ "C10": dict(category="proof", design="4/C10",
+  text="78 Lean theorems on the generated rotation functions for all reals: axis rotations are the active right-handed matrices; all 12 Euler orders equal the documented product "
+       "of three axis rotations (one uniform rule); preservation of dot and cross products, additivity, inverses; rotate_axis about e_i = rotateX/Y/Z and independent of the axis length; "
+       "quaternion(cos a/2, n sin a/2) = rotate_axis(n,a); every key via C01. rotate_nautical / case-insensitive order / 2D and 4D use: glue model + symbolic correspondence.",
+  note=TB, technique="Lean 4 proofs (ring identities) over translator-generated model"),
+ "C12": dict(category="proof", design="4/C12",
+  text="Lean 4 theorems over the regenerated model: for ALL 4/36/144 coordinate-system key pairs and all reals, != <-> not ==, == reflexive/symmetric, same-system == and isclose "
+       "characterised coordinate-wise, isclose reflexive, implied by == and monotone in both tolerances. Operator/method/numpy-function routing on object, NumPy and Awkward backends "
+       "is checked differentially against the Lean model evaluated at IEEE double. Known findings: numpy.isclose/allclose on object and Awkward vectors.",
+  note=TB + "NaN is outside the real model; NumPy/Awkward element-wise semantics sampled, not proved.",
+  technique="Lean 4 proof over translator-generated model + differential correspondence (Lean Float model vs real backends)"),
+ "C13": dict(category="proof", design="4/C13",
+  text="97 Lean theorems on the generated accessors and predicates: ranges of phi, deltaphi, theta, deltaangle; non-negativity; sign conventions of costheta/cottheta; t from tau >= 0; "
+       "tau<0 iff spacelike; beta/gamma ranges; the three causal predicates pairwise disjoint and equal to the documented sign tests for every key and tolerance; "
+       "is_parallel/antiparallel/perpendicular iff cos(angle) within tolerance, for all key pairs.",
+  note=TB + "singular strata (answers produced by nan_to_num replacement values) are exercised only on the real code by the law sweep.",
+  technique="Lean 4 proofs over translator-generated model; mp law sweep incl. boundary strata as failing-input search"),
+ "C14": dict(category="proof", design="4/C14",
+  text="Theorems about the glue model: every momentum spelling resolves to the accessor of its geometric name (28 equations + completeness), calls and setters through a synonym "
+       "equal those through the geometric name, to_* momentum conversions equal their geometric counterparts (C04), and flavor never changes a number (dispatch results agree after "
+       "forgetting the momentum flag). Tie: symbolic correspondence for getters/conversions/setters on the object backend; NumPy and Awkward field access and item assignment through "
+       "every synonym compared value for value.",
+  note=GL, technique="Lean 4 proofs about a hand-written executable model + exact symbolic / exhaustive synonym-table correspondence"),
+ "C15": dict(category="proof", design="4/C15",
+  text="The object vector as a state machine (assignment to any coordinate by any spelling, += -= *= /=): by induction over ALL finite histories class/flavor/dimension are invariant, "
+       "a raising step leaves the state unchanged, in-place operators keep the coordinate system and equal replaceData of the functional result, assignments store the value verbatim, "
+       "keep the other groups' stored coordinates and read back exactly (under the identity-accessor laws, proved for the generated copy). Tie: per-step exact symbolic correspondence "
+       "on generated histories (valid and malformed), incl. id()/type() of the real object.",
+  note=GL, technique="Lean 4 proofs by induction over operation sequences + exact symbolic per-step correspondence"),
 }
 PENDING = {}
 props = [json.loads(l) for l in open(os.path.join(VERIF, "properties.jsonl"))]
